@@ -1,12 +1,13 @@
 #!/bin/sh
-# usage: /verif/run.sh <Cxx> <quick|thorough> [extra check args]
+# usage: $R/run.sh <Cxx> <quick|thorough> [extra check args]
 # Rebuilds the harness against the current /repo working tree, then runs the check.
+R="${VERIF_ROOT:-/verif}"
 export GOFLAGS=-mod=mod GOPROXY=off
 unset GOSUMDB
 id="$1"; tier="${2:-${VERIF_TIER:-quick}}"; shift; shift 2>/dev/null
-mkdir -p /verif/.work/bin /verif/evidence /verif/replays
-cd /verif/mc || exit 2
-if ! go build -o /verif/.work/bin/check ./cmd/check 2>/verif/.work/build.log; then
-  echo "harness build failed (no verdict):"; tail -20 /verif/.work/build.log; exit 2
+mkdir -p $R/.work/bin $R/evidence $R/replays
+cd $R/mc || exit 2
+if ! go build -o $R/.work/bin/check ./cmd/check 2>$R/.work/build.log; then
+  echo "harness build failed (no verdict):"; tail -20 $R/.work/build.log; exit 2
 fi
-exec /verif/.work/bin/check "$id" --tier "$tier" "$@"
+exec $R/.work/bin/check "$id" --tier "$tier" "$@"
